@@ -736,8 +736,12 @@ impl Ctl {
         ptrace(libc::PTRACE_GETREGS, tid, 0, &mut regs as *mut _ as usize);
         // read/write/pread64/pwrite64: length is the third argument (rdx)
         if matches!(st.name.as_str(), "read" | "write" | "pread64" | "pwrite64") {
-            regs.rdx = t as u64;
-            ptrace(libc::PTRACE_SETREGS, tid, 0, &regs as *const _ as usize);
+            // a legal short answer is SHORTER than what was asked for; the step an index points at may be a
+            // different (smaller) request than in the probe run once an earlier answer was shortened
+            if t >= 0 && (t as u64) < regs.rdx {
+                regs.rdx = t as u64;
+                ptrace(libc::PTRACE_SETREGS, tid, 0, &regs as *const _ as usize);
+            }
         }
     }
 }
